@@ -75,6 +75,10 @@ def run(ctx):
             ctx.disagreement('corr.%s.decode_prefix' % codec, {'module': text, 'encoded': data.hex()[:200], 'cut': k, 'impl': cls, 'model': a[:100]})
         elif len(ctx.samples) < 5 and k == len(data) - 1 and len(data) > 3:
             ctx.sample({'codec': codec, 'module': text, 'encoded': data.hex()[:80], 'cut': k, 'impl': cls, 'model': a[:40]})
+    # explicitly tagged types (high tag numbers, untagged CHOICE at the top): prefixes for ber / der
+    from .. import tagged as _tagged
+    from ..gen import Gen as _Gen, Opts as _Opts, module_text as _module_text
+    _tagged.run_c16(ctx, ctx.rng, ctx.n(60, 800), impl, ['ber', 'der'], _Gen, _Opts, _module_text)
 
 
 def replay(ctx, path):
